@@ -132,6 +132,19 @@ func verifC17(a *vh.Args) {
 	}
 	sites = append(sites, c17Site{"dial", "Dial", 0})
 	outcomes := []string{"found", "no-registration", "no-transport-left", "transport-error"}
+	if a.Thorough() {
+		// thorough: the session also runs over the prefix transport (its wrapped connection type sits between the
+		// relay and the socket, so errors travel through another layer), with and without a client address of the
+		// IPv4-mapped form, and with more call positions
+		outcomes = append(outcomes, "found-prefix")
+		clients = append(clients, net.ParseIP("::ffff:203.0.113.77"), net.ParseIP("2001:db8::1"))
+		for i := 3; i < 6; i++ {
+			sites = append(sites, c17Site{"client", "Write", i}, c17Site{"covert", "Write", i}, c17Site{"covert", "Read", i})
+		}
+		for i := 6; i < 9; i++ {
+			sites = append(sites, c17Site{"client", "Read", i})
+		}
+	}
 	n := 0
 	for _, oc := range outcomes {
 		rm := vfix.Manager(nil, vfix.Selector(vfix.SubnetsTOML), &vfix.Tester{}, vfix.AllWrapping, capf)
@@ -142,6 +155,10 @@ func verifC17(a *vh.Args) {
 		case "found":
 			addReg(rm, me, phantom)
 			stream = append(append([]byte{}, flight...), noise(40, "c17")...)
+		case "found-prefix":
+			pr := regSpec{secret: 3, tt: pb.TransportType_Prefix, params: &pb.PrefixTransportParams{PrefixId: proto.Int32(1)}, valid: true}
+			addReg(rm, pr, phantom)
+			stream = append(append([]byte{}, clientFlight(pr)...), noise(40, "c17p")...)
 		case "no-registration":
 			stream = noise(200, "c17-nr")
 		case "no-transport-left":
@@ -158,7 +175,7 @@ func verifC17(a *vh.Args) {
 		for _, cip := range clients {
 			nd := needles(cip)
 			for _, site := range sites {
-				if oc != "found" && (site.conn != "client" || site.op == "Write") {
+				if !strings.HasPrefix(oc, "found") && (site.conn != "client" || site.op == "Write") {
 					continue
 				}
 				for _, er := range errs {
@@ -184,7 +201,7 @@ func verifC17(a *vh.Args) {
 					client := &vconn.Conn{Name: "client", Local: paddr, Remote: caddr,
 						In: []vconn.Event{{Data: stream[:len(stream)/2]}, {Data: stream[len(stream)/2:]}, {Data: noise(20, "later"), AfterWrites: 40}, {Err: io.EOF, AfterWrites: 60}}}
 					covert := &vconn.Conn{Name: "covert", Echo: true, Local: &net.TCPAddr{IP: net.IPv4(192, 0, 2, 200), Port: 40000}, Remote: &net.TCPAddr{IP: net.IPv4(93, 184, 216, 34), Port: 443}}
-					if oc != "found" {
+					if !strings.HasPrefix(oc, "found") {
 						client.In = []vconn.Event{{Data: stream[:len(stream)/2]}, {Data: stream[len(stream)/2:]}}
 					}
 					inject := func(c *vconn.Conn, which string) {
